@@ -833,15 +833,15 @@ def handle (toks : List String) : String :=
     match t.toInt? with
     | some n => encStr (NumFmt.fmtInt n)
     | none => "bad-op"
-  | ["fmtflt", ty, nn, r1, r2] =>
-    match decStr r1, decStr r2 with
-    | some r1, some r2 =>
+  | ["fmtflt", ty, nn, r1, r2, t] =>
+    match decStr r1, decStr r2, decStr t with
+    | some r1, some r2, some t =>
       if (ty ≠ "S" ∧ ty ≠ "D") ∨ (nn ≠ "0" ∧ nn ≠ "1") then "bad-op" else
       let isD := ty = "D"
       let k := if isD then none else NumFmt.singleRoundDigits r1
-      let r := if k.isSome then r2 else r1
-      (match k with | some k => toString k | none => "-") ++ " " ++ encStr (NumFmt.fmtFloat isD r (nn = "1"))
-    | _, _ => "bad-op"
+      (match k with | some k => toString k | none => "-") ++ " " ++
+        encStr (if isD then NumFmt.fmtFloat true r1 (nn = "1") else NumFmt.fmtSingle r1 r2 t (nn = "1"))
+    | _, _, _ => "bad-op"
   | ["pyint", t] =>
     match decStr t with
     | some s => match NumFmt.pyInt s with
